@@ -188,6 +188,11 @@ impl TryFrom<&TExpr> for u32 {
                     _ => Err(TryFromU32Error),
                 }
             }
+            // A constant declared with exactly the type of the literal is stored without a cast.
+            Expr::Literal(Literal::Int(IntLiteral {
+                value: int_value,
+                sign: true,
+            })) => u32::try_from(*int_value).map_err(|_| TryFromU32Error),
             _ => Err(TryFromU32Error),
         }
     }
